@@ -65,6 +65,12 @@ def cut_sets(total, header_len, seed, stream=b''):
         sets.append(('reply, then one frame per read', [header_len] + fb[:-1]))
         sets.append(('reply, then two frames per read', [header_len] + fb[1:-1:2]))
         sets.append(('reply with the first frame header, then one frame per read', [header_len + 2] + fb[:-1]))
+    # very small first reads (1-3 bytes), then the rest at once or with the end of the header in the next read
+    for a in (1, 2, 3):
+        sets.append(('first read of %d byte(s), then the rest' % a, [a]))
+        sets.append(('reads of %d byte(s), then up to the end of the reply, then the rest' % a, [a, header_len]))
+        sets.append(('two reads of %d byte(s), then the rest' % a, [a, 2 * a]))
+        sets.append(('first read of %d byte(s), then up to the middle of the terminator, then the rest' % a, [a, header_len - 2]))
     interesting = [header_len - 3, header_len - 1, header_len, header_len + 1, header_len + 2, header_len + 3]
     for c in interesting:
         sets.append(('single cut at offset %d' % c, [c]))
